@@ -22,7 +22,7 @@ func init() {
 			"crossed with every policy of the family that is in the property's class (no raw-text element, no comments, no value pattern on rewritten attributes, no rewriter) plus Strict and UGC " +
 			"(UGC only when no del/ins cite survives the first pass). Oracle: Sanitize(Sanitize(x)) == Sanitize(x). non-trivial = first pass changed the input.",
 		Assumptions: []string{"class membership is decided by the harness's spec view of the builder calls, not by inspecting the policy object"},
-		QuickBudget:  50, ThoroughBudget: 800,
+		QuickBudget: 50, ThoroughBudget: 800,
 		Run:    runC20,
 		Replay: replayC20,
 	})
